@@ -37,44 +37,94 @@ impl Rng {
 // ---------------------------------------------------------------------------------
 // C20
 
+/// Calls `apply` from a destructor: used to make a clean call while the thread unwinds from a
+/// panic that has nothing to do with the lock.
+struct ApplyOnDrop<'a> {
+    lock: &'a essential_lock::StdLock<u64>,
+    d: u64,
+    token: u64,
+    out: &'a std::cell::Cell<Option<(u64, u64)>>,
+}
+impl Drop for ApplyOnDrop<'_> {
+    fn drop(&mut self) {
+        let (d, token) = (self.d, self.token);
+        let r = self.lock.apply(|v| {
+            let r = *v;
+            std::thread::yield_now();
+            *v = r | d;
+            (r, token)
+        });
+        self.out.set(Some(r));
+    }
+}
+
 fn lock_mode(seed: u64) -> i32 {
     use essential_lock::StdLock;
+    // deliberate panics (outside `apply`) are part of the scenario: keep them quiet
+    std::panic::set_hook(Box::new(|_| {}));
     let mut rng = Rng(seed);
     let n_threads = 2 + rng.below(3) as usize;
     let n_locks = 1 + rng.below(2) as usize;
     let locks: Arc<Vec<StdLock<u64>>> = Arc::new((0..n_locks).map(|_| StdLock::new(0u64)).collect());
     let mut bit = 0u32;
     let mut handles = Vec::new();
+    let mut n_unwind = 0;
+    let mut n_unpark = 0;
     for t in 0..n_threads {
         let n = 1 + rng.below(3) as usize;
-        let steps: Vec<(usize, u64, u64, u64)> = (0..n)
+        // (lock, delta, inside, outside, stale wake-up token pending, call made while unwinding)
+        let steps: Vec<(usize, u64, u64, u64, bool, bool)> = (0..n)
             .map(|_| {
                 let d = 1u64 << bit;
                 bit += 1;
-                (rng.below(n_locks as u64) as usize, d, rng.below(5), rng.below(3))
+                let unpark = rng.below(4) == 0;
+                let unwind = rng.below(5) == 0;
+                n_unpark += unpark as u32;
+                n_unwind += unwind as u32;
+                (rng.below(n_locks as u64) as usize, d, rng.below(5), rng.below(3), unpark, unwind)
             })
             .collect();
         let locks = locks.clone();
         handles.push(std::thread::spawn(move || {
             let mut obs = Vec::new();
-            for (l, d, inside, outside) in steps {
+            for (l, d, inside, outside, unpark, unwind) in steps {
                 let token = ((t as u64) << 32) | d.trailing_zeros() as u64;
-                let (read, tok) = locks[l].apply(|v| {
-                    let r = *v;
-                    // work of varying duration inside the critical section
-                    let mut x = 0u64;
-                    for i in 0..(inside % 4) * 3 {
-                        x = x.wrapping_add(i);
-                        std::thread::yield_now();
-                    }
-                    std::hint::black_box(x);
-                    if inside >= 4 {
-                        // a long closure: 1.5 s of (Miri's virtual) time inside the critical section
-                        std::thread::sleep(std::time::Duration::from_millis(1500));
-                    }
-                    *v = r | d;
-                    (r, token)
-                });
+                if unpark {
+                    // a wake-up token left over from earlier (legal): a lock that sleeps with
+                    // `park` must not mistake it for its own wake-up
+                    std::thread::current().unpark();
+                }
+                let (read, tok) = if unwind {
+                    // the thread panics outside any `apply`; a destructor makes a clean call
+                    // while it unwinds. The call must behave like any other, and leave the
+                    // lock usable.
+                    let out = std::cell::Cell::new(None);
+                    let caught = std::panic::catch_unwind(std::panic::AssertUnwindSafe(|| {
+                        let _g = ApplyOnDrop { lock: &locks[l], d, token, out: &out };
+                        if inside < 100 {
+                            panic!("deliberate panic outside apply");
+                        }
+                    }));
+                    assert!(caught.is_err());
+                    out.get().expect("the destructor ran")
+                } else {
+                    locks[l].apply(|v| {
+                        let r = *v;
+                        // work of varying duration inside the critical section
+                        let mut x = 0u64;
+                        for i in 0..(inside % 4) * 3 {
+                            x = x.wrapping_add(i);
+                            std::thread::yield_now();
+                        }
+                        std::hint::black_box(x);
+                        if inside >= 4 {
+                            // a long closure: 1.5 s of (Miri's virtual) time inside the critical section
+                            std::thread::sleep(std::time::Duration::from_millis(1500));
+                        }
+                        *v = r | d;
+                        (r, token)
+                    })
+                };
                 obs.push((l, read, d, token, tok));
                 for _ in 0..outside {
                     std::thread::yield_now();
@@ -85,7 +135,14 @@ fn lock_mode(seed: u64) -> i32 {
     }
     let mut all = Vec::new();
     for h in handles {
-        all.extend(h.join().expect("thread"));
+        match h.join() {
+            Ok(o) => all.extend(o),
+            Err(p) => {
+                let msg = p.downcast_ref::<String>().cloned().or_else(|| p.downcast_ref::<&str>().map(|s| s.to_string())).unwrap_or_default();
+                println!("VIOLATION-DETAIL lock seed={seed}: a call to apply did not return its closure's value, the thread panicked: {msg}");
+                return 1;
+            }
+        }
     }
     for l in 0..n_locks {
         let mut obs: Vec<_> = all.iter().filter(|o| o.0 == l).collect();
@@ -102,13 +159,20 @@ fn lock_mode(seed: u64) -> i32 {
             }
             cur |= o.2;
         }
-        let fin = locks[l].apply(|v| *v);
+        let fin = match std::panic::catch_unwind(std::panic::AssertUnwindSafe(|| locks[l].apply(|v| *v))) {
+            Ok(v) => v,
+            Err(p) => {
+                let msg = p.downcast_ref::<String>().cloned().or_else(|| p.downcast_ref::<&str>().map(|s| s.to_string())).unwrap_or_default();
+                println!("VIOLATION-DETAIL lock {l} seed={seed}: a later apply panicked although no closure ever panicked: {msg}");
+                return 1;
+            }
+        };
         if fin != cur {
             println!("VIOLATION-DETAIL lock {l}: final value {fin:#x}, all updates {cur:#x}");
             return 1;
         }
     }
-    println!("ok lock seed={seed} threads={n_threads} locks={n_locks} closures={bit}");
+    println!("ok lock seed={seed} threads={n_threads} locks={n_locks} closures={bit} stale_unpark={n_unpark} during_unwind={n_unwind}");
     0
 }
 
